@@ -2422,6 +2422,20 @@ def write_cache_meta(meta: CacheMeta, manager: BuildManager, meta_file: str) -> 
         manager.log(f"Error writing cache meta file {meta_file}")
 
 
+def invalidate_cache_meta_ex(meta_file: str, manager: BuildManager) -> None:
+    """Remove the meta_ex record that belongs to the previous version of meta_file.
+
+    Nothing else ties a meta_ex record to its meta record, so this must happen before a new
+    meta becomes visible: if the process dies (or the meta_ex write fails) between the two
+    writes, the next run finds no meta_ex and re-checks the module instead of replaying the
+    error lines of the old version.
+    """
+    try:
+        manager.metastore.remove(get_meta_ex_name(meta_file))
+    except OSError:
+        pass
+
+
 def write_cache_meta_ex(meta_file: str, meta_ex: CacheMetaEx, manager: BuildManager) -> None:
     # Write errors cache file
     meta_ex_file = get_meta_ex_name(meta_file)
@@ -4839,6 +4853,7 @@ def process_stale_scc(graph: Graph, ascc: SCC, manager: BuildManager) -> None:
             for dep in graph[id].dependencies
             if state.priorities.get(dep) != PRI_INDIRECT
         ]
+        invalidate_cache_meta_ex(meta_file, manager)
         write_cache_meta(meta, manager, meta_file)
         indirect = [dep for dep in state.dependencies if state.priorities.get(dep) == PRI_INDIRECT]
         meta_ex = CacheMetaEx(
@@ -4917,6 +4932,7 @@ def process_stale_scc_interface(
             for dep in state.dependencies
             if state.priorities.get(dep) != PRI_INDIRECT
         ]
+        invalidate_cache_meta_ex(meta_file, manager)
         write_cache_meta(meta, manager, meta_file)
         manager.commit_module(meta_file)
         scc_result.append((id, ModuleResult(graph[id].interface_hash.hex(), []), meta_file))
